@@ -191,7 +191,7 @@ def run_property(prop, tier="quick", seed=0, level="proof", only=None, jobs=None
         r = by_name[t.name]
         functions.update(t.functions)
         row = dict(task=t.name, kind=t.kind, scope=t.scope, wall_s=r.get("wall_s"))
-        if t.leak_ok and r.get("errors") and all(e.get("kind") == "ProxyLeak" for e in r["errors"]):
+        if t.leak_ok and r.get("errors") and all(e.get("kind") in ("ProxyLeak", "CutError", "ShapeError") for e in r["errors"]):
             inapplicable.append(dict(task=t.name, reason=r["errors"][0].get("msg", "")[:200]))
             r = dict(r, errors=[], obligations={}, inapplicable=True)
             by_name[t.name] = r
